@@ -16,12 +16,25 @@ Definition E_UNSUP : Z := 29.
 (* fmt %g for integer-valued floats below 2^53 (all the harness lets reach a string conversion) *)
 Definition is_int_float (x : float) : bool :=
   let z := f_trunc x in (PrimFloat.eqb (f_of_Z z) x) && (Z.abs z <? 9007199254740992).
+(* fmt %g of an integer-valued float: plain digits below 10^6 in magnitude, otherwise d.ddde+XX with the trailing
+   zeros of the mantissa dropped (Go switches to the exponent form at exponent 6 for shortest formatting) *)
+Fixpoint drop_zeros (l : bytes) : bytes := match l with 48 :: r => drop_zeros r | _ => l end.
+Definition g_int (z : Z) : bytes :=
+  let a := Z.abs z in
+  if a <? 1000000 then itoa z
+  else
+    let ds := itoa a in
+    let e := Z.of_nat (length ds) - 1 in
+    let m := rev (drop_zeros (rev ds)) in
+    let mant := match m with [] => [48] | [d] => [d] | d :: rest => d :: 46 :: rest end in
+    (if z <? 0 then [45] else []) ++ mant ++ [101; 43] ++ (if e <? 10 then 48 :: itoa e else itoa e).
+
 Definition value_str (v : val) : option bytes :=
   match v with
   | VNum x true => Some (if PrimFloat.eqb x 0 then [70;65;76;83;69] else [84;82;85;69])
   | VNum x false =>
     if is_int_float x
-    then Some (match PrimFloat.classify x with FloatClass.NZero => [45; 48] | _ => itoa (f_trunc x) end)   (* Go prints -0 *)
+    then Some (match PrimFloat.classify x with FloatClass.NZero => [45; 48] | _ => g_int (f_trunc x) end)   (* Go prints -0 *)
     else None
   | VStr s => Some s
   | VUnsup => None
